@@ -1,8 +1,12 @@
 import Driver.AstJson
 import Platypus.Spec.OutcomeSem
+import Std.Data.HashMap
 open Lean Platypus
 
 namespace DrvRun
+
+/-- engine answers shared by all cases of a run (hex query ↦ hex answer), loaded from $VERIF_ORACLE -/
+abbrev GOracle := Std.HashMap String String
 
 def bstr (b : Bytes) : String := String.ofList (b.map fun c => Char.ofNat c.toNat)
 
@@ -32,9 +36,13 @@ def pointJson (h : Heap) (pt : Point) : Json :=
          ("meta", Json.arr idx.toArray), ("time", Json.num (JsonNumber.fromInt pt.time)), ("drop", pt.drop)]
 
 def traceJson (tr : List Event) : Json :=
-  Json.arr (tr.reverse.map fun e => match e with
-    | .probe n args => Json.arr ((Json.str (bstr n)) :: args.map fun a => Json.str (bstr a)).toArray
-    | .out t => Json.arr #[Json.str "out", Json.str (J.toHex t)]).toArray
+  Json.arr (tr.reverse.filterMap fun e => match e with
+    | .probe n args => some (Json.arr ((Json.str (bstr n)) :: args.map fun a => Json.str (bstr a)).toArray)
+    | .out _ => none).toArray
+
+/-- everything printf wrote, in order -/
+def stdoutOf (tr : List Event) : String :=
+  J.toHex (tr.reverse.foldl (fun acc e => match e with | .out t => acc ++ t | _ => acc) [])
 
 def chainJson (e : PlErr) : Json :=
   Json.arr (e.chain.map fun (f, p) => Json.arr #[J.toHex f, Json.num (JsonNumber.fromInt p.pos), Json.num (JsonNumber.fromInt p.ln), Json.num (JsonNumber.fromInt p.col)]).toArray
@@ -46,13 +54,14 @@ structure Obs where
   point : Json := Json.null
   trace : Json := Json.null
   polls : Nat := 0
+  stdout : String := ""
   mapIters : Nat := 0
   need : Option Bytes := none
 
 def obsOf (r : Res Unit) : Obs :=
   match r with
-  | .ok _ s => { outcome := "ok", point := pointJson s.world.heap s.world.pt, trace := traceJson s.world.trace, polls := s.world.polls, mapIters := s.world.mapIters }
-  | .err e s => { outcome := "err", chain := chainJson e, msg := e.msg, point := pointJson s.world.heap s.world.pt, trace := traceJson s.world.trace, polls := s.world.polls, mapIters := s.world.mapIters }
+  | .ok _ s => { outcome := "ok", point := pointJson s.world.heap s.world.pt, trace := traceJson s.world.trace, stdout := stdoutOf s.world.trace, polls := s.world.polls, mapIters := s.world.mapIters }
+  | .err e s => { outcome := "err", chain := chainJson e, msg := e.msg, point := pointJson s.world.heap s.world.pt, trace := traceJson s.world.trace, stdout := stdoutOf s.world.trace, polls := s.world.polls, mapIters := s.world.mapIters }
   | .panic m => { outcome := "panic", msg := m }
   | .fuel => { outcome := "fuel" }
   | .need q => { outcome := "need", need := some q }
@@ -82,7 +91,7 @@ def load (j : Json) : Except String Loaded := do
          entry := J.hx (J.get j "entry"), point := pointOfJson (J.get j "point"),
          sigK := if sigk == 0 then none else some sigk, hasSig := J.bool (J.get j "hassig"), oracle := oracle }
 
-def envOf (l : Loaded) (orderCode : Nat) : Env :=
+def envOf (g : GOracle) (l : Loaded) (orderCode : Nat) : Env :=
   { bound := fun site => match l.bounds.find? (·.1 == site) with
       | some (_, name) => (match l.scripts.find? (·.1 == name) with | some (n, st) => some (n, st) | none => none)
       | none => none
@@ -90,23 +99,25 @@ def envOf (l : Loaded) (orderCode : Nat) : Env :=
     sigK := l.sigK
     hasSignal := l.hasSig
     mapOrder := fun i => (orderCode / 6 ^ i) % 6
-    oracle := l.oracle }
+    oracle := fun q => match alookup q l.oracle with
+      | some a => some a
+      | none => (g.get? (J.toHex q)).map J.hexBytes }
 
-def runModel (l : Loaded) (orderCode : Nat) (fuel : Nat := 20000) : Obs :=
+def runModel (g : GOracle) (l : Loaded) (orderCode : Nat) (fuel : Nat := 20000) : Obs :=
   match l.scripts.find? (·.1 == l.entry) with
   | none => { outcome := "notloaded" }
-  | some (name, stmts) => obsOf (runScript (envOf l orderCode) fuel name stmts { pt := l.point })
+  | some (name, stmts) => obsOf (runScript (envOf g l orderCode) fuel name stmts { pt := l.point })
 
 def outName : Sem.Out → String
   | .normal => "normal" | .brk => "brk" | .cont => "cont" | .exit => "exit"
 
 /-- self-check of the refinement statement `semStmts = absU ∘ runStmts` on this case's top-level
     block (the theorem C03.flags_refine_outcomes proves it for all programs) -/
-def semCheck (l : Loaded) (orderCode : Nat) (fuel : Nat := 20000) : Bool :=
+def semCheck (g : GOracle) (l : Loaded) (orderCode : Nat) (fuel : Nat := 20000) : Bool :=
   match l.scripts.find? (·.1 == l.entry) with
   | none => true
   | some (name, stmts) =>
-    let env := envOf l orderCode
+    let env := envOf g l orderCode
     let s0 : St := { task := { name := name, scopes := [[]] }, world := { pt := l.point } }
     let m := Sem.absU (runStmts env (evalNode env fuel) fuel stmts s0)
     let sm := Sem.semStmts env (evalNode env fuel) fuel stmts s0
@@ -131,6 +142,7 @@ def diff (m : Obs) (obs : Json) (hasSig : Bool) : String :=
   else if io == "panic" then ""
   else if io == "notloaded" then ""
   else if io == "err" && m.chain.compress != (implChain obs).compress then s!"errpos model={m.chain.compress}({m.msg}) impl={(implChain obs).compress}({J.str (J.get (J.get obs "err") "msg")})"
+  else if m.stdout != J.str (J.get obs "stdout") then s!"stdout model={m.stdout} impl={J.str (J.get obs "stdout")}"
   else if m.trace.compress != (J.get obs "trace").compress then s!"trace model={m.trace.compress} impl={(J.get obs "trace").compress}"
   else
     let ip := J.get obs "point"
@@ -145,7 +157,48 @@ def diff (m : Obs) (obs : Json) (hasSig : Bool) : String :=
     (Go values of a type the language does not have, e.g. a Go `int`), used by C01/C02/C10 specs -/
 def implWellTyped (obs : Json) : Bool := !((obs.compress.splitOn "?").length > 1)
 
-def run (j : Json) : Json :=
+def renderType (r : String) : String :=
+  match r.toList.head? with
+  | some 'n' => "nil" | some 't' => "bool" | some 'f' => "bool" | some 'i' => "int"
+  | some 'd' => "float" | some 's' => "str" | _ => "?"
+
+/-- C10's invariant evaluated on the implementation's own output point: every tag key is indexed
+    (str, tag); every field key is indexed (type of the stored value, field); no key is both; field
+    values have a language type; and (for the C10 generator, whose last probe reads the five keys
+    back) each key reads back exactly what the point holds -/
+def c10spec (j obs : Json) : Bool × String := Id.run do
+  let pt := J.get obs "point"
+  let tags := (J.arr (J.get pt "tags")).toList.map fun t => let a := J.arr t; (J.str a[0]!, J.str a[1]!)
+  let fields := (J.arr (J.get pt "fields")).toList.map fun t => let a := J.arr t; (J.str a[0]!, J.str a[1]!)
+  let metas := (J.arr (J.get pt "meta")).toList.map fun t => let a := J.arr t; (J.str a[0]!, J.str a[1]!, J.str a[2]!)
+  for (k, _) in tags do
+    if fields.any (·.1 == k) then return (false, s!"key {k} is both tag and field")
+    match metas.find? (·.1 == k) with
+    | some (_, t, fl) => if t != "str" || fl != "tag" then return (false, s!"tag {k} indexed as ({t},{fl})")
+    | none => return (false, s!"tag {k} not indexed")
+  for (k, r) in fields do
+    if renderType r == "?" then return (false, s!"field {k} holds a non-language value {r}")
+    match metas.find? (·.1 == k) with
+    | some (_, t, fl) => if t != renderType r || fl != "field" then return (false, s!"field {k}={r} indexed as ({t},{fl})")
+    | none => return (false, s!"field {k} not indexed")
+  -- read-back through get_key (C10 generator only)
+  if (J.str (J.get j "gen")).startsWith "seq" && J.str (J.get obs "outcome") == "ok" then
+    let tr := J.arr (J.get obs "trace")
+    match tr.back? with
+    | some ev =>
+      let vals := (J.arr ev).toList.drop 1 |>.map J.str
+      let keys := ["6631", "7431", "6d657373616765", "6b31", "6b32"]
+      for (k, got) in keys.zip vals do
+        let want := match fields.find? (·.1 == k) with
+          | some (_, r) => s!"{renderType r}={r}"
+          | none => match tags.find? (·.1 == k) with
+            | some (_, v) => s!"str=s{v}"
+            | none => "nil=n"
+        if got != want then return (false, s!"get_key({k}) read {got}, the point holds {want}")
+    | none => pure ()
+  return (true, "")
+
+def run (g : GOracle) (j : Json) : Json :=
   match load j with
   | .error e => J.obj [("id", J.get j "id"), ("agree", false), ("spec", true), ("note", s!"load: {e}")]
   | .ok l =>
@@ -153,8 +206,9 @@ def run (j : Json) : Json :=
     let strict := J.bool (J.get j "strict")
     let io := J.str (J.get obs "outcome")
     -- generic part of the specification: never a panic, only language-typed values
-    let specGeneric := io != "panic" && implWellTyped obs
-    let m0 := runModel l 0
+    let c10 := if J.bool (J.get j "c10") && (io == "ok" || io == "err") then c10spec j obs else (true, "")
+    let specGeneric := io != "panic" && io != "crash" && implWellTyped obs && c10.1
+    let m0 := runModel g l 0
     match m0.need with
     | some q =>
       J.obj [("id", J.get j "id"), ("agree", true), ("spec", specGeneric), ("need", J.toHex q), ("note", "")]
@@ -169,14 +223,14 @@ def run (j : Json) : Json :=
         for c in [1:2 ^ bits] do
           let code := (List.range bits).foldl (fun acc i => acc + ((c / 2 ^ i) % 2) * 6 ^ i) 0
           n := n + 1
-          if diff (runModel l code) obs l.hasSig == "" then return ("", n)
+          if diff (runModel g l code) obs l.hasSig == "" then return ("", n)
         -- … then all orders of the first 4 iterations (maps of 3 keys)
         for code in [1:6 ^ (min m0.mapIters 4)] do
           n := n + 1
-          if diff (runModel l code) obs l.hasSig == "" then return ("", n)
+          if diff (runModel g l code) obs l.hasSig == "" then return ("", n)
         return (d0, n)
       let agree := d == ""
       J.obj [("id", J.get j "id"), ("agree", agree), ("spec", specGeneric && (agree || !strict)),
-             ("note", d), ("orders", tried), ("moutcome", m0.outcome), ("semok", semCheck l 0)]
+             ("note", if c10.1 then d else c10.2 ++ " | " ++ d), ("orders", tried), ("moutcome", m0.outcome), ("semok", semCheck g l 0)]
 
 end DrvRun
